@@ -39,6 +39,18 @@ fn main() {
         _ => Tier::Quick,
     };
     let check = args[1].clone();
+    // last line of defence against a subject (or harness) that never returns: a check that hangs is worth less than
+    // one that says so. Generous caps (the slowest tiers take 1 min quick / 13 min thorough on 16 cores).
+    if check.starts_with('C') {
+        let cap = std::env::var("VERIF_WALL_CAP_S").ok().and_then(|v| v.parse().ok()).unwrap_or(if tier.thorough() { 4 * 3600u64 } else { 1200 });
+        let name = check.clone();
+        std::thread::spawn(move || {
+            std::thread::sleep(std::time::Duration::from_secs(cap));
+            eprintln!("MACHINERY: {name} did not finish within {cap} s (wall cap): no verdict");
+            println!("MACHINERY: {name} did not finish within {cap} s (wall cap): no verdict");
+            std::process::exit(2);
+        });
+    }
     let code = match std::panic::catch_unwind(move || dispatch(&args, tier)) {
         Ok(c) => c,
         Err(_) => {
